@@ -176,7 +176,7 @@ fn varint_strategy() -> BoxedStrategy<VarintCase> {
 }
 
 pub fn c26(s: &mut Session) -> Meta {
-  let cases = s.tier().pick(200_000, 20_000_000);
+  let cases = s.tier().pick(3_000_000, 20_000_000);
   s.run_part(Part::new("varint", cases, varint_strategy, varint_check));
   Meta {
     level: "exploration",
@@ -366,7 +366,7 @@ fn rune_value_strategy() -> BoxedStrategy<u128> {
 }
 
 pub fn c32(s: &mut Session) -> Meta {
-  let cases = s.tier().pick(200_000, 20_000_000);
+  let cases = s.tier().pick(3_000_000, 20_000_000);
   let strategy = || {
     (
       rune_value_strategy(),
@@ -520,7 +520,7 @@ fn schedule_enumeration(cx: &Cx) -> CheckResult {
 pub fn c33(s: &mut Session) -> Meta {
   s.run_enumeration("schedule-heights", schedule_enumeration);
   s.exhaustive = false;
-  let cases = s.tier().pick(100_000, 10_000_000);
+  let cases = s.tier().pick(1_500_000, 10_000_000);
   // names: around every step, and uniform inside each length interval
   let strategy = || {
     let steps: Vec<u128> = (1..=27)
